@@ -213,23 +213,33 @@ def template_cross(chk, method, paths, argnames, sample_args, result=None, rtol=
 
 # ---- class-level frames, on the real AST
 def class_frame(chk, module, cls, writable, constructors=("__init__",), label=None):
-    """For every method of ``cls`` other than its constructors: the attributes of self it can write (directly or through methods of the
-    same object) are within ``writable`` (dict method -> set, key "*" = any method).  This is the frame that lets the per-call contracts
-    of the other methods treat the remaining attributes as constants of the object (history independence)."""
+    """For every method of ``cls`` other than its constructors: it does not write (directly or through methods of the same object) any
+    attribute that the constructor sets up - the constants of the object that the per-call contracts of the other methods rely on
+    (history independence) - except the declared per-call state ``writable`` (dict method -> set, key "*" = any method).
+    A store to an attribute the constructor does not know (new state added by a change) is not judged here: it is reported as
+    *undecided* - it may be harmless bookkeeping or a cache, and the contract has to be extended to say which."""
     import ast as _ast
     from wgvc import source
     from wgvc.effects import frame_of
     mi = source.load_module(module)
     cdef = mi.classes[cls]
+    protected = set()
+    for c in constructors:
+        fc = frame_of(module, cls, c)
+        protected |= {a.split("[")[0] for a in fc["stores"]}
     n = 0
     for st in cdef.body:
         if not isinstance(st, _ast.FunctionDef) or st.name in constructors:
             continue
         f = frame_of(module, cls, st.name)
         allowed = set(writable.get("*", set())) | set(writable.get(st.name, set()))
-        ok = f["stores"] <= allowed
-        chk.vc(f"{label or cls}.frame.{st.name}.writes-only-declared-state", [], sym.to_sym(bool(ok)), func=f"{module}.{cls}.{st.name}", kind="frame",
-               meta={"stores": sorted(f["stores"]), "allowed": sorted(allowed)})
+        extra = f["stores"] - allowed
+        hits = {a for a in extra if a.split("[")[0] in protected}
+        unknown = extra - hits
+        chk.vc(f"{label or cls}.frame.{st.name}.writes-only-declared-state", [], sym.to_sym(not hits), func=f"{module}.{cls}.{st.name}", kind="frame",
+               meta={"stores": sorted(f["stores"]), "allowed": sorted(allowed), "constants_written": sorted(hits)})
+        if unknown:
+            chk.undecided.append(f"{cls}.{st.name} writes attribute(s) {sorted(unknown)} that the constructor does not set up: not covered by the class frame")
         n += 1
     if n == 0:
         chk.undecided.append(f"class frame of {cls}: no methods found")
